@@ -335,6 +335,9 @@ func planC16(tier string, seed uint64) *Plan {
 	}
 	groups := randomPlan("ui_sizes", seed, uiCfgs(seed, n, nil), jobs, count, "stub")
 	groups = append(groups, randomPlan("ui_race", seed+3, uiCfgs(seed+3, n/2, nil), 1, count/2, "stub")...)
+	// racing pacing with a resize after every other action: a frame built for the old size must
+	// not reach the terminal after the report of the new size has returned
+	groups = append(groups, randomPlan("ui_race_sizes", seed+5, uiCfgs(seed+5, n, nil), 1, count, "stub")...)
 	p.Phases = []Phase{{Name: "frames", Groups: groups}}
 	return p
 }
